@@ -168,8 +168,11 @@ def model_mentions():
         if not f.endswith('.lean'):
             continue
         text = open(os.path.join(MODEL_DIR, f)).read()
-        for m in re.finditer(r'/--(.*?)-/\s*(?:@\[[^\]]*\]\s*)*(?:partial\s+)?(?:def|structure|inductive|abbrev)\s+([A-Za-z_0-9.\']+)', text, flags=re.S):
+        for m in re.finditer(r'/--((?:(?!-/).)*)-/\s*(?:@\[[^\]]*\]\s*)*(?:partial\s+)?(?:def|structure|inductive|abbrev)\s+([A-Za-z_0-9.\']+)', text, flags=re.S):
             out.append((f, m.group(2), m.group(1)))
+        # documented structure fields (`/-- `opt_packing_factor::<T>()` -/  pf : Option Nat`)
+        for m in re.finditer(r'/--((?:(?!-/).)*)-/\s*([a-z][A-Za-z_0-9]*)\s*:', text, flags=re.S):
+            out.append((f, 'field ' + m.group(2), m.group(1)))
         hdr = re.search(r'/-!(.*?)-/', text, flags=re.S)
         if hdr:
             out.append((f, '(module)', hdr.group(1)))
